@@ -10,9 +10,14 @@ Optional fields (absent = the plain spelling), all about HOW the caller says the
          clone 0|1 (use q.clone() of the loaded queue), shadow same|diff (a second queue fed with the same source
          objects and driven between the ops), meddle 0|1 (the caller scribbles over everything it passed in or got
          back), nrep np64|np32|kw|posdec|mix (pop_buffer argument), trep np|kw (pause/resume argument), enc (array
-         value encoding base for long waveforms)
+         value encoding base for long waveforms), share scratch (the caller builds its stimuli in ONE scratch object per
+         kind - an ndarray re-filled in place, a FixedWaveform whose array is re-bound, an enveloped tone whose carrier
+         frequency is stepped - and appends that same object again and again: the queue must hold a snapshot per append),
+         reent [[K, 'p'|'pt'], ...] (the 'added' consumer calls q.pause() / q.pause(info['t0']) from inside the K-th
+         notification, i.e. while pop_buffer is being served; C04)
   stim:  trep np64|np32|float (trial count), dform none|int|np|gen|list|tuple|ndarray (delays argument),
-         meta 0|1 (metadata dict), dtype f4|i4|i8|i2|strided, xdur / declare (explicit duration=), late 0|1
+         meta 0|1 (metadata dict), dtype f4|i4|i8|i2|strided, xdur / declare (explicit duration=), late 0|1,
+         same_as j (the very same source object as stimulus j < i, unchanged, appended again under its own key)
   ops:   ['append', i] (stimulus i, marked late, is appended at that point), ['popnd', n] = pop_buffer(n, decrement=False)
 Positions m are sample positions relative to the queue start; the adapter passes
 t = t0 + m/fs.  Delays are in sample units (possibly fractional); the adapter passes d/fs and the
@@ -203,8 +208,21 @@ def _decode(out, c0, tr, case, live):
     stims = case['stims']
     enc = case.get('enc', ENC)
     out = np.asarray(out)
-    if len(out) > 20000 and not any(st['src'] == 'cos2' for st in stims):
+    alias = [_alias(stims, i) for i in range(len(stims))]
+    has_alias = any(a != i for i, a in enumerate(alias))
+    if has_alias:
+        stims = [eff_stim(stims, i) for i in range(len(stims))]
+    if len(out) > 20000 and not has_alias and not any(st['src'] == 'cos2' for st in stims):
         return _decode_fast(out, tr, stims, enc)
+
+    def owner(p, kk):
+        # two stimuli queued from the very same object carry the same values: the sample belongs to the one whose
+        # notified trial covers the position
+        if has_alias:
+            for key, k in live:
+                if alias[key] == kk and k <= p < k + tr.lens[key]:
+                    return key
+        return kk
     cells = []
     cos = [i for i, st in enumerate(stims) if st['src'] == 'cos2']
     prev = None
@@ -218,7 +236,7 @@ def _decode(out, c0, tr, case, live):
         jj = int(v % enc) - 1
         if v == int(v) and 0 <= kk < len(stims) and stims[kk]['src'] in ('arr', 'fixed') \
                 and 0 <= jj < tr.lens[kk]:
-            cells.append(('W', kk, jj))
+            cells.append(('W', owner(c0 + i, kk), jj))
             prev = None
             continue
         p = c0 + i
@@ -397,15 +415,76 @@ def _meta_value(st, i):
     return {'stim': i, 'tag': f'm{i}', 'levels': [i, i + 1]} if st.get('meta') else None
 
 
-def _load(case, q, fs, srcs, bound, keys=None, upto=None):
+def _alias(stims, i):
+    """The stimulus whose values stimulus i carries (same_as chains resolved)."""
+    seen = 0
+    while stims[i].get('same_as') is not None and seen < len(stims):
+        i, seen = stims[i]['same_as'], seen + 1
+    return i
+
+
+_OWN_FIELDS = ('trials', 'delays', 'late', 'trep', 'dform', 'meta', 'declare', 'xdur', 'same_as')
+
+
+def eff_stim(stims, i):
+    """Stimulus i with the source fields (src, len, frac, dtype) of the stimulus whose object it re-uses."""
+    a = _alias(stims, i)
+    if a == i:
+        return stims[i]
+    st = {k: v for k, v in stims[a].items() if k not in _OWN_FIELDS}
+    st.update({k: v for k, v in stims[i].items() if k in _OWN_FIELDS})
+    return st
+
+
+def _present(case, srcs, i, pool):
+    """The object the caller hands to append() for stimulus i.  Plain cases: the stimulus' own object.  case['share']:
+    one scratch object per kind, re-filled / re-parametrised with stimulus i's content just before the call (what a
+    caller does that synthesises its stimuli into a work buffer, or steps the level / frequency attribute of one
+    factory in a loop).  st['same_as']: the unchanged object of an earlier stimulus."""
+    src = srcs[i][0]
+    st = case['stims'][i]
+    if st.get('same_as') is not None:
+        return srcs[_alias(case['stims'], i)][0]
+    if not case.get('share'):
+        return src
+    if isinstance(src, np.ndarray):
+        if not src.flags.c_contiguous:
+            return src
+        k = ('arr', src.shape, src.dtype.str)
+        if k not in pool:
+            pool[k] = np.empty_like(src)
+        pool[k][...] = src                      # the scratch array, re-filled in place
+        return pool[k]
+    wf = getattr(src, 'waveform', None)
+    if isinstance(wf, np.ndarray):              # one FixedWaveform factory, its array re-bound before each append
+        if 'fixed' not in pool:
+            pool['fixed'] = copy.copy(src)
+        pool['fixed'].waveform = wf
+        pool['fixed'].reset()
+        return pool['fixed']
+    inner = getattr(src, 'input_factory', None)
+    if inner is not None and hasattr(inner, 'frequency'):
+        # one enveloped-tone factory per envelope shape; the carrier frequency attribute is stepped
+        k = ('cos2', int(src.n_samples()), repr(src.duration), repr(src.rise_time))
+        if k not in pool:
+            pool[k] = copy.deepcopy(src)
+        pool[k].input_factory.frequency = inner.frequency
+        return pool[k]
+    return src
+
+
+def _load(case, q, fs, srcs, bound, keys=None, upto=None, pool=None):
     """append / extend the stimuli that are present from the start; returns their keys."""
     out = []
     pending = []
+    pool = {} if pool is None else pool
     build = case.get('build')      # how the caller fills the queue: append() each, extend() all, or a mixture
+    if case.get('share') and build != 'pos':
+        build = None               # a scratch object is re-filled between append() calls (extend() takes all at once)
     for i, st in enumerate(case['stims']):
         if st.get('late'):
             continue
-        src, declared = srcs[i]
+        src, declared = _present(case, srcs, i, pool), srcs[i][1]
         T, delays, meta = _trials_value(st), _delays_value(st, fs, bound), _meta_value(st, i)
         if build in ('extend', 'extend-bcast') or (build == 'mixed' and i > 0):
             pending.append((src, T, delays, declared, meta))
@@ -442,9 +521,9 @@ def _load(case, q, fs, srcs, bound, keys=None, upto=None):
     return out
 
 
-def _append_one(case, q, fs, srcs, i, bound):
+def _append_one(case, q, fs, srcs, i, bound, pool=None):
     st = case['stims'][i]
-    src, declared = srcs[i]
+    src, declared = _present(case, srcs, i, {} if pool is None else pool), srcs[i][1]
     return q.append(src, _trials_value(st), delays=_delays_value(st, fs, bound), duration=declared,
                     metadata=_meta_value(st, i))
 
@@ -494,8 +573,9 @@ def _drive(case, q, tr, fs, t0, rewire=lambda q: None):
 
     bound = _n_presentations_bound(case)
     srcs = []
-    for i, st in enumerate(case['stims']):
-        src, n, dur, ref = make_source(st, i, fs, case.get('enc', ENC))
+    for i in range(len(case['stims'])):
+        st = eff_stim(case['stims'], i)
+        src, n, dur, ref = make_source(st, _alias(case['stims'], i), fs, case.get('enc', ENC))
         tr.lens.append(n)
         tr.durs.append(dur)
         tr.refs.append(ref)
@@ -507,7 +587,8 @@ def _drive(case, q, tr, fs, t0, rewire=lambda q: None):
             tr.durs[-1] = dur
         declared = dur / fs if (st.get('xdur') or st.get('declare')) else None
         srcs.append((src, declared))
-    keys.extend(_load(case, q, fs, srcs, bound))
+    pool = {}                  # the caller's scratch objects (case['share'])
+    keys.extend(_load(case, q, fs, srcs, bound, pool=pool))
     for i, st in enumerate(case['stims']):
         if not st.get('late'):
             tr.lines.append(f'ok {i}')
@@ -519,7 +600,7 @@ def _drive(case, q, tr, fs, t0, rewire=lambda q: None):
         shadow = make_queue(case, variant='diff' if case['shadow'] == 'diff' else None)
         st0 = t0 + (1.5 if case['shadow'] == 'diff' else 0)
         shadow.set_t0(st0)
-        _load(case, shadow, fs, srcs, bound)
+        _load(case, shadow, fs, srcs, bound, pool=pool)
         tr.recording = True
     if case.get('clone'):
         # the caller works with a clone of the loaded queue; the original is used too
@@ -555,7 +636,7 @@ def _drive(case, q, tr, fs, t0, rewire=lambda q: None):
             tr.steps.append({'op': op, 'status': 'dead'})
             continue
         if op[0] == 'append':
-            keys.append(_append_one(case, q, fs, srcs, op[1], bound))
+            keys.append(_append_one(case, q, fs, srcs, op[1], bound, pool))
             if case.get('meddle'):
                 _scribble_sources(case, srcs, only=op[1])
             tr.lines.append(f'ok {op[1]}')
@@ -691,7 +772,7 @@ def model_lines(case, use_tick=False):
     lines = [f"new {case['policy']} {int(case.get('keep', 1))} {int(case.get('gsize', 0))} {draws} {perms}"]
 
     def append_line(i):
-        st = case['stims'][i]
+        st = eff_stim(case['stims'], i)
         _, n, dur, ref = make_source(st, i, fs, case.get('enc', ENC))
         zs = [int(j) for j in np.flatnonzero(np.asarray(ref) == 0)]
         kind = 'arr' if st['src'] == 'arr' else 'gen'
@@ -780,6 +861,8 @@ def spell(rng, c, finite_delays=False, p=0.6):
         c['shadow'] = rng.choice(['same', 'diff'])
     if rng.random() < 0.3:
         c['meddle'] = 1
+    if rng.random() < 0.15:
+        c['share'] = 'scratch'     # one scratch object per kind of source, re-filled before each append()
     same_trials = rng.random() < 0.3
     for i, st in enumerate(c['stims']):
         if same_trials:
@@ -806,12 +889,22 @@ def spell(rng, c, finite_delays=False, p=0.6):
     return c
 
 
-CASE_SPELLINGS = ('ctor', 'fsrep', 't0rep', 'build', 'clone', 'shadow', 'meddle', 'nrep', 'trep')
-STIM_SPELLINGS = ('trep', 'dform', 'meta', 'dtype', 'declare', 'xdur')
+CASE_SPELLINGS = ('ctor', 'fsrep', 't0rep', 'build', 'clone', 'shadow', 'meddle', 'nrep', 'trep', 'share')
+STIM_SPELLINGS = ('trep', 'dform', 'meta', 'dtype', 'declare', 'xdur', 'same_as')
 
 
 def drop_stim(c, i):
     """The case without stimulus i (late appends of it dropped, later ones renumbered)."""
+    if any(st.get('same_as') is not None for st in c['stims']):
+        stims = []
+        for j, st in enumerate(c['stims']):
+            a = st.get('same_as')
+            if a is not None:
+                st = {k: v for k, v in st.items() if k != 'same_as'}
+                if a != i and j != i:
+                    st['same_as'] = a - (a > i)
+            stims.append(st)
+        c = dict(c, stims=stims)
     ops = []
     for op in c['ops']:
         if op[0] == 'append':
@@ -832,6 +925,46 @@ def unspell_candidates(c):
             if st.get(f):
                 s2 = {k: v for k, v in st.items() if k != f}
                 yield dict(c, stims=c['stims'][:i] + [s2] + c['stims'][i + 1:])
+
+
+def shared_stims(rng, n, max_len=9, max_trials=3):
+    """Stimuli a caller would build in one scratch object: groups of equal shape (arrays of one length and dtype,
+    enveloped tones of one duration), FixedWaveform factories of any length; sometimes the unchanged object of an
+    earlier stimulus appended once more (same_as)."""
+    out = []
+    L = rng.randint(1, max_len)
+    frac = rng.choice([0, 0, 0.25, -0.4])
+    dt = rng.choice([None, None, 'f4', 'i4'])
+    for i in range(n):
+        src = rng.choice(['arr', 'arr', 'fixed', 'cos2'])
+        nd = rng.choice([1, 1, 2])
+        st = {'src': src, 'len': L if src != 'fixed' or rng.random() < 0.5 else rng.randint(1, max_len),
+              'trials': rng.randint(1, max_trials),
+              'delays': [rng.choice([0, 0, 0.5, 1, 2, 3.6]) for _ in range(nd)]}
+        if src == 'cos2':
+            st['frac'] = frac
+        elif dt:
+            st['dtype'] = dt
+        if i and rng.random() < 0.2:
+            j = rng.randrange(i)
+            st = dict(out[j], trials=st['trials'], delays=st['delays'], same_as=_alias(out, j))
+        out.append(st)
+    return out
+
+
+def waveform_failure(tr, N):
+    """What each notified trial put on the output: the waveform queued under ITS key, at the notified sample (as far as
+    the N samples fetched reach).  For histories without pauses."""
+    cells = flat_cells(tr)
+    for (key, k, *_rest) in tr.added:
+        for i in range(tr.lens[key]):
+            if k + i >= min(N, len(cells)):
+                break
+            want = ('Z',) if i in tr.zero_at[key] else ('W', key, i)
+            if k + i < 0 or cells[k + i] != want:
+                return (f'trial of stimulus {key} notified at sample {k}: output[{k + i}] is {cells[k + i]}, sample {i} of the '
+                        f'waveform queued under that key expected')
+    return None
 
 
 def policy_name(case):
